@@ -448,11 +448,22 @@ func runFullDiskCase(t *rapid.T, fc fullCfg) {
 					return
 				}
 			}
+			b := pick(t, []uint64{8, 520, 521, 1031, 1032}, "block")
+			straddle := rapid.IntRange(0, 2).Draw(t, "straddle") == 0
+			if straddle {
+				// the request starts in a block that exists, one before the edge, and runs across it
+				b--
+				wrap("WRITE", func(t *rapid.T) error {
+					return x.Write(LiveRef(f), b*BlockSize, patternData(g.nextTag(), BlockSize), BlockSize, nt.FILE_SYNC)
+				})(t)
+				if cut || !x.LastOK {
+					return
+				}
+			}
 			fillTo(t, uint64(rapid.IntRange(1, 3).Draw(t, "freeblocks")))
 			if cut {
 				return
 			}
-			b := pick(t, []uint64{8, 520, 521, 1031, 1032}, "block")
 			St.Class("requests_at_an_index_block_edge_with_1_to_3_blocks_free")
 			if rapid.Bool().Draw(t, "read") {
 				wrap("READHOLE", func(t *rapid.T) error {
